@@ -16,10 +16,13 @@ ASSUMPTIONS = ["type-incompatible patches, deletion of missing keys, None placeh
 
 # ------------------------------------------------------------------ update
 NESTED = [{}, {"a": 1}, {"b": 2}, {"a": 1, "b": 2}, {"a": {"a": 1}}]
-LISTS1 = [[], [{"a": 1}], [{"a": 1}, {"b": 2}]]
+LISTS1 = [[], [{"a": 1}], [{"a": 1}, {"b": 2}], [{"a": 1}, {"b": 2}, {"a": 3}]]
 V1 = ["ABSENT", 1, [1, 2]] + NESTED + LISTS1
 V2 = ["ABSENT", 2, "__delete__", [3], {"a": 2}, {"b": "__delete__"}, {"__delete__": True}, {"a": {"a": 2}}, {"b": {"b": 3}},
-      [{"a": 2}], [None, {"a": 2}], [{"__delete__": True}], [{"a": 2}, {"b": 3}, {"a": 4}], [{"a": "__delete__"}]]
+      [{"a": 2}], [None, {"a": 2}], [{"__delete__": True}], [{"a": 2}, {"b": 3}, {"a": 4}], [{"a": "__delete__"}],
+      # a deletion FOLLOWED by further entries: later entries keep addressing the original indexes
+      [{"__delete__": True}, {"a": 9}], [{"__delete__": True}, None, {"b": 9}], [{"__delete__": True}, {"__delete__": True}],
+      [None, {"__delete__": True}, {"a": 9}], [{"a": 9}, {"__delete__": True}]]
 
 
 def is_objlist(v):
@@ -121,7 +124,7 @@ def dicts(values):
 
 
 def units(tier):
-    us = [("UPDATE", i) for i in range(16)] + [("FIND",), ("FINDKEY",), ("MAPFILE",)]
+    us = [("UPDATE", i) for i in range(16)] + [("FIND",), ("FINDLIST",), ("FINDKEY",), ("MAPFILE",)]
     return us
 
 
@@ -286,6 +289,45 @@ def minimal_combo(fname, combo, q, mapfile):
     return combo
 
 
+def run_find_listvalues(res):
+    """find: 'the first item whose key equals the value' also when the value is a list (colours, sizes are lists in a Mapfile dict)"""
+    import mappyfile
+
+    vals = [None, [255, 0, 0], [0, 0, 0], 255, "255 0 0"]
+    queries = [[255, 0, 0], [0, 0, 0], [1, 2, 3], 255, 0, "255 0 0"]
+    n = 0
+    for L in range(0, 4):
+        for combo in itertools.product(range(len(vals)), repeat=L):
+            for q in queries:
+                lst = []
+                for i, vi in enumerate(combo):
+                    d = {"__type__": "style", "width": i}
+                    if vals[vi] is not None:
+                        d["color"] = copy.deepcopy(vals[vi])
+                    lst.append(mk(d, True))
+                plain = [D.plain(x) for x in lst]
+                snap = [D.typed(x) for x in lst]
+                exp = ref_find(plain, "color", q)
+                res["evals"] += 1
+                n += 1
+                try:
+                    got = mappyfile.find(lst, "color", q)
+                    same = (got is None and exp is None) or (got is not None and exp is not None and got is lst[plain.index(exp)])
+                    why = "result %r, reference %r" % (D.plain(got) if got is not None else None, exp)
+                    if same and [D.typed(x) for x in lst] != snap:
+                        same, why = False, "items were modified"
+                except Exception as e:
+                    same, why = False, "raised %s: %s" % (type(e).__name__, e)
+                if same:
+                    R.add_outcome(res, "agrees")
+                    res["states"].add(R.h64(("findlist", combo, repr(q))))
+                else:
+                    R.add_outcome(res, "differs")
+                    R.add_violation(res, "find|colors=%r query=%r" % ([vals[i] for i in combo][-2:], q), "find with a list-valued value differs from its documented law: " + why,
+                                    {"op": "findlist", "values": [vals[i] for i in combo], "query": q}, None)
+    R.add_sub(res, "find with list-valued keys and queries", n)
+
+
 def run_findkey(res):
     import mappyfile
 
@@ -373,6 +415,8 @@ def run_unit(unit):
         run_update(res, unit[1])
     elif unit[0] == "FIND":
         run_find(res)
+    elif unit[0] == "FINDLIST":
+        run_find_listvalues(res)
     elif unit[0] == "FINDKEY":
         run_findkey(res)
     else:
